@@ -35,9 +35,9 @@ def base(**kw):
     return K
 
 
-def comps(spec):
-    """spec: {name: (type, decl-set)}"""
-    return dict(Comps=set(spec), TypeOf={c: v[0] for c, v in spec.items()}, Decl={c: set(v[1]) for c, v in spec.items()})
+def comps(spec, falsy=()):
+    """spec: {name: (type, decl-set)}; falsy: instances whose truth value is False (adapter-only)"""
+    return dict(_Falsy=set(falsy), Comps=set(spec), TypeOf={c: v[0] for c, v in spec.items()}, Decl={c: set(v[1]) for c, v in spec.items()})
 
 
 def procs(spec, ptypes):
@@ -87,6 +87,8 @@ def trace_validate(res, name, K, n_traces, n_calls, invariants=None):
     gen = 'WorldTrace_%s' % name
     defs, consts, ov = [], {}, {}
     for k, v in K.items():
+        if k.startswith('_'):
+            continue
         if isinstance(v, (bool, int)):
             consts[k] = tla.to_tla(v)
         else:
@@ -126,6 +128,6 @@ BIG_PROCS = ({'p1': ('P1', ('on_add', 'on_remove')), 'p1b': ('P1', ()), 'p2': ('
 
 def big(acts, **kw):
     K = base(Acts=set(acts), Ids=set(range(1, 9)) | {101, 102}, MaxAuto=60, MaxQ=1000, Prios={-3, -1, 0, 2, 5}, Dts={0, 1, 3},
-             **comps(BIG_COMPS), **procs(*BIG_PROCS))
+             **comps(BIG_COMPS, falsy={'c1', 'c3', 'c7'}), **procs(*BIG_PROCS))
     K.update(kw)
     return K
